@@ -104,10 +104,10 @@ Proof.
   - destruct (nth_error (w_insts wd) n) as [k0|]; [|exact I]. destruct I as [Hk Hs].
     split; cbn [w_known w_secret]; constructor; auto; try apply pub_row_ok; try apply addr_key_not_ok.
   - destruct (nth_error (w_insts wd) n) as [k0|]; [|exact I]. destruct I as [Hk Hs].
-    split; cbn [w_known w_secret]; auto. constructor; auto; try apply signature_ok.
+    split; cbn [w_known w_secret]; auto; try (constructor; auto; apply signature_ok).
   - destruct I as [Hk Hs]. split; cbn [w_known w_secret]; auto.
   - destruct (nth_error (w_insts wd) n) as [k0|]; [|exact I]. destruct I as [Hk Hs].
-    split; cbn [w_known w_secret]; auto. constructor; auto; try apply export_ok.
+    split; cbn [w_known w_secret]; auto; try (constructor; auto; apply export_ok).
   - destruct (nth_error (w_insts wd) n) as [k0|]; [|exact I]. apply WInv_add, I.
   - apply WInv_add, I.
   - destruct I as [Hk Hs]. split; cbn [w_known w_secret]; auto.
@@ -170,7 +170,6 @@ Proof.
       * cbn [map] in Hs. destruct Hs as [<-|Hs]; [left; reflexivity|].
         right. apply (C k0 s); [eapply nth_error_In; eauto|]. unfold secrets. apply in_or_app. right. exact Hs.
   - destruct (nth_error (w_insts wd) n) as [k0|]; exact C.
-  - intros k s Hk Hs. exact (C k s Hk Hs).
   - destruct (nth_error (w_insts wd) n) as [k0|]; exact C.
   - destruct (nth_error (w_insts wd) n) as [k0|]; [apply covers_add|]; exact C.
   - intros k s Hk Hs. cbn [w_insts w_secret] in *. apply in_map_iff in Hk.
@@ -185,7 +184,8 @@ Theorem no_plain_secret_live ops k s :
   ~ derivable (knows (srun init_world ops)) s.
 Proof.
   intros Hk Hs. apply no_plain_secret.
-  apply (srun_covers ops init_world); [intros k' s' []|exact Hk|exact Hs].
+  assert (C : covers (srun init_world ops)) by (apply srun_covers; intros k' s' []).
+  exact (C k s Hk Hs).
 Qed.
 
 (* the attacker holding the public passphrase does reach the public material (so the model is
